@@ -188,7 +188,14 @@ def _monte_carlo(ck, repo, nf):
     rets = [n for n in cfg.nodes if n.kind == "stmt" and isinstance(n.ast, ast.Return)]
     ck.need(len(rets) == 1, f"{q}: body has {len(rets)} returns")
     rp = nf.poly(rets[0].ast.value, sc, rets[0].id)
-    ck.need(rp.elems is not None and len(rp.elems) == 3, f"{q}: body must return (q_table, n_visits, return)")
+    ck.need(rp.elems is not None, f"{q}: body must return the loop state tuple")
+    if len(rp.elems) != 3:
+        inbody = any(".add(1)" in e.canon() for e in rp.elems)
+        if not inbody:
+            ck.ob("R3-monte-carlo", q, "body:n'", False, f"loop state has {len(rp.elems)} components, none of them a visit count advanced by one",
+                  "the visit count is not advanced inside the backward loop: every step must divide by the number of visits *so far* (running mean), not by a count computed elsewhere", loc(mi, body))
+            return
+        raise AnalysisError(f"{q}: loop state arity {len(rp.elems)} (unrecognised idiom)")
     ssc = Scope(None, mi, env, q)
     idx = f"ep_len - 1 - {i}"
     o, a, r = f"observations[{idx}]", f"actions[{idx}]", f"rewards[{idx}]"
@@ -252,7 +259,9 @@ def _dynaq(ck, repo, nf):
     w = tw[0]
     idx = w.func.value.slice
     n_idx = len(idx.elts) if isinstance(idx, ast.Tuple) else 1
-    val = ast.unparse(w.args[0])
+    mcfg = nf.cfg_of(fn)
+    msc = Scope(mcfg, mi, {p: Poly.atom(p, {p}, {p}) for p in param_names(fn)}, q)
+    val = nf.poly(w.args[0], msc, mcfg.node_of(w).id).canon()
     aggregates_row = "sum(" in val
     ok = (n_idx == 2 and aggregates_row) or (n_idx == 3 and not aggregates_row)
     ck.ob("R4-dyna-q", q, "transition-row-footprint", ok, f"`{short(w, 110)}`",
@@ -265,8 +274,10 @@ def _dynaq(ck, repo, nf):
         okv = "counter.transition_counter[obs][act]" in v and "sum(" in v and "^-1" in v
         ck.ob("R4-dyna-q", q, "transition-row-value", okv, f"row = {v[:120]}", "" if okv else "row must be counts(s,a,.) / sum(counts(s,a,.))", loc(mi, w))
     w = rw[0]
-    okr = ast.unparse(w.func.value.slice) == "(obs, act, next_obs)" or ast.unparse(w.func.value.slice) == "obs, act, next_obs"
-    okr = okr and "mean(counter.reward_history[obs][act][next_obs])" in ast.unparse(w.args[0])
+    okr = ast.unparse(w.func.value.slice) in ("(obs, act, next_obs)", "obs, act, next_obs")
+    rv = nf.poly(w.args[0], msc, mcfg.node_of(w).id).canon()
+    H = "counter.reward_history[obs][act][next_obs]"
+    okr = okr and rv in (f"mean({H})", f"len({H})^-1*sum({H})")
     ck.ob("R4-dyna-q", q, "reward-mean", okr, f"`{short(w, 100)}`", "" if okr else "R(s,a,s') must be the mean of the rewards observed for that transition", loc(mi, w))
     # counter_update
     q = A + "dynaq.counter_update"
@@ -277,12 +288,8 @@ def _dynaq(ck, repo, nf):
 
 
 def _td_error(ck, repo, nf):
-    q = "rl_blox.util.error_functions.td_error"
-    fn = repo.func(q)
-    env = {p: Poly.atom(p, {p}, {p}) for p in param_names(fn)}
-    got = nf.return_poly(q, env)
-    want = nf.poly(parse_expr("reward + gamma * next_value - value"), Scope(None, fn._module, env), None)
-    ck.ob("R1-update-formula", q, "td-error", got == want, f"td_error = {got.canon()}", "" if got == want else "td_error must be reward + gamma * next_value - value", loc(fn._module, fn))
+    # td_error carries no obligation of its own: it is inlined at every use site, so any change of it is judged there
+    ck.note("td_error is checked through inlining at its call sites (no frozen form of the helper itself)")
     q = "rl_blox.blox.value_policy.greedy_policy"
     fn = repo.func(q)
     env = {p: Poly.atom(p, {p}, {p}) for p in param_names(fn)}
